@@ -102,12 +102,11 @@ def extract(g, X):
         if not w:
             raise ValueError("keyword is no longer located with next_word")
         p = w.group(1)
-        f = re.search(r"let\s+&?(\w+)\s*=\s*\*?self\.buf\.get\(\s*" + p + r"\s*\)", b)
-        s2 = re.search(r"let\s+&?(\w+)\s*=\s*\*?self\.buf\.get\(\s*" + p + r"\s*\+\s*1\s*\)", b)
-        b0, b1 = f.group(1), s2.group(1)
-        # what follows the keyword is RUN for every first byte (and, where the second byte is consulted, for every second
-        # byte): an if / else-if chain, a match on the byte or on the pair give the same table  byte(s) -> new position
+        # what follows the keyword is RUN with the byte at `pos` (and, where it is consulted, the byte at `pos + 1`) given every
+        # value: `self.buf.get(pos)` itself is what is varied, so it does not matter whether the byte is bound to a local,
+        # matched directly, tested by an if / else-if chain or by a match on the byte or on the pair
         code = b[w.end():]
+        first, second = "self.buf.get(%s)" % p, "self.buf.get(%s + 1)" % p
 
         def advance(o):
             if o.is_err or o.how != "value":
@@ -119,13 +118,13 @@ def extract(g, X):
         one, two = {}, {}
         for v in range(256):
             try:
-                o = X.rsx.run(X, code, {}, lx, scopes=[b], inject={b0: v})
+                o = X.rsx.run(X, code, {}, lx, scopes=[b], inject_expr={first: ("Some", v)})
                 a = advance(o)
                 if a is not None:
                     one[v] = a
             except X.rsx.Unknown:
                 for v2 in range(256):
-                    a = advance(X.rsx.run(X, code, {}, lx, scopes=[b], inject={b0: v, b1: v2}))
+                    a = advance(X.rsx.run(X, code, {}, lx, scopes=[b], inject_expr={first: ("Some", v), second: ("Some", v2)}))
                     if a is not None:
                         two[(v, v2)] = a
         ((lf, after_lf),) = one.items()
